@@ -417,7 +417,11 @@ def match_known(known, prop, hname, desc):
 def check_property(prop, tier, seed, only=None):
     import registry
     t0 = time.time()
-    hs = registry.select(prop, tier, seed)
+    if prop == 'DEV':
+        hs = [h for h in registry.HARNESSES if any(re.search(rx, h['name']) for rx in (only or ['.']))]
+        only = None
+    else:
+        hs = registry.select(prop, tier, seed)
     if only:
         hs = [h for h in hs if h['name'] in only]
     canaries = registry.canaries()
@@ -496,7 +500,7 @@ def check_property(prop, tier, seed, only=None):
                         unwind_fail = True
                     tg = tags_of(c['desc'])
                     # tagged with other properties only -> not this property's obligation
-                    if tg and prop not in tg:
+                    if tg and prop not in tg and prop != 'DEV':
                         obligations -= 1
                         continue
                     fails.append(c)
@@ -527,6 +531,9 @@ def check_property(prop, tier, seed, only=None):
                 if k:
                     known_hits.append((k, h['name'], d))
             if not unknown:
+                continue
+            if prop == 'DEV':
+                violations.append((h['name'], unknown, None, 'DEV mode: no replay'))
                 continue
             ok, path, detail = make_replay(h, unknown, scratch, pool, logdir)
             entry['replay'] = {'reproduced': ok, 'path': path, 'detail': detail[:400]}
